@@ -32,6 +32,7 @@ func checkC15(r *core.Run) {
 	c15Tables(r, p)
 	c15Guards(r, p)
 	c15Bytewise(r, p)
+	c15SymbolRange(r, p)
 	c15Sym(r, p)
 }
 
@@ -582,4 +583,46 @@ func c15Bytewise(r *core.Run, p *core.Program) {
 	_ = nconv
 	sort.Strings(bad)
 	r.Check(len(bad) == 0 && nf >= 10, rule, "characters-are-bytes", "-", fmt.Sprintf("%d functions of the address code, no rune narrowed to a byte", nf), strings.Join(bad, "; "))
+}
+
+// c15SymbolRange: in the Bech32 decoder every value looked up in the reverse character table is used (fed to
+// the checksum, stored as data) only after the test "value > 31 -> refuse": the table holds 99 for characters
+// outside the alphabet, and 99 fed into the checksum acts like a valid symbol plus a carry into its neighbour.
+func c15SymbolRange(r *core.Run, p *core.Program) {
+	const rule = "R-C15-guards"
+	fn := p.Func("lib/others/bech32.Decode")
+	if fn == nil {
+		r.Fail(rule, "decode/symbol-range-before-use", "-", "Decode not found")
+		return
+	}
+	n := 0
+	var bad []string
+	an.Instrs(fn, func(i ssa.Instruction) {
+		v, ok := i.(ssa.Value)
+		if !ok {
+			return
+		}
+		e := an.Expr(v)
+		if !strings.HasPrefix(e, "lib/others/bech32.charset_rev[") {
+			return
+		}
+		switch i.(type) {
+		case *ssa.UnOp, *ssa.Index:
+		default:
+			return
+		}
+		for _, ref := range *v.Referrers() {
+			// the range test itself
+			if bo, ok := ref.(*ssa.BinOp); ok && (bo.Op == token.GTR || bo.Op == token.GEQ || bo.Op == token.LSS || bo.Op == token.LEQ) {
+				continue
+			}
+			n++
+			cs := an.DomConds(ref.Block())
+			if !(an.HasCond(cs, "("+e+" > 31)", false) || an.HasCond(cs, "("+e+" >= 32)", false)) {
+				bad = append(bad, "a table value is used at "+p.Pos(ref.Pos())+" without the preceding test 'value > 31 -> refuse'")
+			}
+		}
+	})
+	sort.Strings(bad)
+	r.Check(len(bad) == 0 && n >= 2, rule, "decode/symbol-range-before-use", p.Pos(fn.Pos()), fmt.Sprintf("%d uses of a reverse-table value, each after the range test", n), strings.Join(bad, "; "))
 }
